@@ -78,6 +78,20 @@ def compare(res, prop, suite, cases, impl, model, pinned=False):
         res.samples.append(dict(suite=suite, case=cases[k][:600], impl=impl[k][:400], model=model[k][:600]))
 
 
+def manifest_text(prop):
+    """What the check claims (technique and statement of MANIFEST.json), repeated in the evidence."""
+    try:
+        m = json.load(open(V + '/MANIFEST.json'))
+        for c in m['checks']:
+            if c['property_id'] == prop:
+                lc = c.get('level_claimed')
+                text = lc.get('text') if isinstance(lc, dict) else str(lc)
+                return '%s. %s' % (c.get('technique', ''), text)
+    except Exception:
+        pass
+    return 'Lean theorems about the hand-written model + regenerated facts + differential correspondence of model and implementation on generated cases'
+
+
 def shrink_note(mm):
     return mm
 
@@ -210,7 +224,7 @@ def run_property(prop, tier, seed, replay_path, t0):
         traces_validated_against_impl=res.evaluations,
         input_distribution=dict(sorted(res.dist.items())),
         exhaustive=False,
-        explanation=cfg.get('explanation', 'Lean theorems about the hand-written model + regenerated facts + differential correspondence of model and implementation on generated cases'),
+        explanation=cfg.get('explanation') or manifest_text(prop),
     )
     if stage.facts_changed:
         coverage['facts_changed'] = stage.facts_changed
